@@ -410,7 +410,7 @@ package app
 //@   ensures keeps_ro [C01]: g_ro == old(g_ro) && g_sro == old(g_sro) && noPromoteEffects() && e_ChangeMaster == old(e_ChangeMaster)
 
 //@ func (*app.App).performSwitchover$3
-//@   ensures repointed [par,C01,C10]: result == nil && host != newMaster && clusterState[host].PingOk ==> g_source[host] == newMaster
+//@   ensures repointed [par,C01,C10]: result == nil && host != newMaster && clusterState[host] != nil && clusterState[host].PingOk ==> g_source[host] == newMaster
 //@   ensures own_key [C01]: ownKeyOnly(host)
 //@   ensures keeps_ro [C01,C10]: g_ro == old(g_ro) && g_sro == old(g_sro) && noPromoteEffects()
 
@@ -849,7 +849,7 @@ package app
 //@ func (*app.App).makeReplStateKey
 //@   requires c20 [safety]: node != nil
 //@ func app.getRepairAlgorithm
-//@   ensures C20.known [C20]: (algoType == StartSlave || algoType == ResetSlave || algoType == ChangeSource) ==> result != nil
+//@   flags inline
 //@ func (*app.App).getMasterHost
 //@   ensures C20.master_is_key [C20]: result1 == nil && result0 != "" ==> has(clusterState, result0)
 //@   loop 1 invariant keys: forall i int :: in_range(i, masters) ==> has(clusterState, masters[i])
@@ -861,14 +861,8 @@ package app
 //@   ensures C20.pos_registered [C20]: forall i int :: in_range(i, result0) ==> regd(app.cluster, result0[i].host)
 //@ func (*app.App).initializeOptimizationModule
 //@   ensures C20.opt_ready [C20]: optOK(app)
-//@ func (*app.Timings).Get
-//@   requires known [safety]: has(t.m, tt)
-//@ func (*app.Timings).Set
-//@   requires known [safety]: has(t.m, tt) && t.m[tt] != nil
-//@ func (*app.Timings).SetIfZero
-//@   requires known [safety]: has(t.m, tt) && t.m[tt] != nil
-//@ func (*app.Timings).Clean
-//@   requires known [safety]: has(t.m, tt) && t.m[tt] != nil
+// Timings accessors stay inlined (their callers' clauses read the stored values); the nil-map obligations of their bodies
+// are discharged at each call site from timingsOK
 //@ func (*app.App).calcActiveNodesChanges
 //@   ensures C20.changes_known [C20]: (forall i int :: in_range(i, becomeActive) ==> clusterState[becomeActive[i]] != nil) && (forall i int :: in_range(i, becomeInactive) ==> clusterState[becomeInactive[i]] != nil) && (forall i int :: in_range(i, becomeDataLag) ==> clusterState[becomeDataLag[i]] != nil)
 //@   loop 1 invariant synckeys: forall i int :: in_range(i, syncReplicas) ==> clusterState[syncReplicas[i]] != nil
@@ -916,3 +910,5 @@ package app
 //@   requires c20 [safety]: valsOK(clusterState)
 //@ func app.calcLagBytes
 //@   ensures C20.swept [C20]: true
+//@ func (*app.Timings).SetIfZero
+//@   requires known [safety]: has(t.m, tt) && t.m[tt] != nil
